@@ -151,67 +151,8 @@ func runC16(c *Ctx) {
 		lr.set("E3.sweep", name+" / every emitted range is non-empty and wrap-free", allNonEmpty, d)
 		R.Notes["sweep_appends_observed"] = len(apps)
 	}
-	// ---- 2a. handler stores the list on every path that computed it; stage
-	{
-		mark := 0
-		var callVal = map[int]absint.Term{}
-		var recv absint.Term
-		var progArg absint.Term
-		res := c.RunE1([]*ssa.Function{evt}, true, func(a *absint.Analyzer, fn *ssa.Function, st *absint.State, args []absint.Term) {
-			recv, progArg = args[0], args[1]
-			mark = a.NewMark()
-			a.NoExternalImpl = func(t types.Type) bool { return true }
-			a.OnInlined = func(f *ssa.Function, fargs []absint.Term, val absint.Term, st *absint.State) {
-				if f == sweep {
-					m := a.NewMark()
-					absint.Mark(st, mark)
-					absint.Mark(st, m)
-					callVal[m] = val
-					a.ExtraRoots = append(a.ExtraRoots, val)
-				}
-			}
-		})
-		c.AddE1(res, false)
-		r := res[0]
-		a := r.A
-		name := shortFn(evt)
-		nCalled := 0
-		for _, ret := range r.Rets {
-			if !absint.Marked(ret.St, mark) {
-				continue
-			}
-			nCalled++
-			var val absint.Term
-			for m, v := range callVal {
-				if absint.Marked(ret.St, m) {
-					val = v
-				}
-			}
-			// s.T0x1212.P0x9212RetransmitPacketList
-			t1212, t1212T := a.LoadField(ret.St, recv, evt.Params[0].Type(), "BaseJT808DataHandler")
-			_ = t1212
-			_ = t1212T
-			list := findField(a, ret.St, recv, evt.Params[0].Type(), []string{"BaseJT808DataHandler", "T0x1212", "*", "P0x9212RetransmitPacketList"})
-			okStore := list != nil && val != nil && list.TKey() == val.TKey()
-			lr.set("E3.wiring", name+" / computed ranges are stored into the handler", okStore,
-				"a path computes the missing ranges but leaves the handler's list as it was (a stale list from an earlier completion is reported); path "+strings.Join(ret.St.Trace, " → "))
-			// stage: Supplementary (4) iff len(list) > 0
-			stage := findField(a, ret.St, progArg, evt.Params[1].Type(), []string{"ProgressStage"})
-			if ls, ok := val.(*absint.Slice); ok {
-				if sv, ok := stage.(absint.Int); ok {
-					nonEmpty := ret.St.Entails(absint.Con{L: ls.Len.AddC(-1), Rel: absint.GE})
-					empty := ret.St.Entails(absint.Con{L: ls.Len, Rel: absint.EQ})
-					isSupp := sv.L.IsConst() && sv.L.C == 4
-					okStage := (nonEmpty && isSupp) || (empty && !isSupp) || (!nonEmpty && !empty && false)
-					lr.set("E3.wiring", name+" / stage is Supplementary exactly when ranges are missing", okStage,
-						fmt.Sprintf("stage=%s with list length %s; path %s", a.Render(stage), a.Render(absint.Int{L: ls.Len}), strings.Join(ret.St.Trace, " → ")))
-				}
-			}
-		}
-		if nCalled == 0 {
-			lr.set("E3.wiring", name+" / computed ranges are stored into the handler", false, "no return state passed through StatisticalMissSegments (anchor)")
-		}
-	}
+	// ---- 2a. handler stores the list on every path that computed it; stage; the file it is computed for
+	c.completionWiring(lr, sweep, evt)
 	// ---- 2b. reply body: flag / count / list
 	{
 		type encCall struct {
@@ -467,4 +408,169 @@ func encodeOrder(c *Ctx, enc *ssa.Function) (bool, string) {
 		return true, ""
 	}
 	return false, "the encoder appends " + strings.Join(seq, ", ") + " per entry; the wire format is DataOffset, DataLength (u32 each)"
+}
+
+// completionWiring (shared by C15 and C16): what the 0x1212 handler does with the missing ranges.
+func (c *Ctx) completionWiring(lr layoutResult, sweep, evt *ssa.Function) {
+	R := c.R
+	_ = R
+	{
+		mark := 0
+		var callVal = map[int]absint.Term{}
+		var recv absint.Term
+		var progArg absint.Term
+		res := c.RunE1([]*ssa.Function{evt}, true, func(a *absint.Analyzer, fn *ssa.Function, st *absint.State, args []absint.Term) {
+			recv, progArg = args[0], args[1]
+			mark = a.NewMark()
+			a.NoExternalImpl = func(t types.Type) bool { return true }
+			a.OnInlined = func(f *ssa.Function, fargs []absint.Term, val absint.Term, st *absint.State) {
+				if f == sweep {
+					m := a.NewMark()
+					absint.Mark(st, mark)
+					absint.Mark(st, m)
+					callVal[m] = val
+					a.ExtraRoots = append(a.ExtraRoots, val)
+				}
+			}
+		})
+		c.AddE1(res, false)
+		r := res[0]
+		a := r.A
+		name := shortFn(evt)
+		nCalled := 0
+		for _, ret := range r.Rets {
+			if !absint.Marked(ret.St, mark) {
+				continue
+			}
+			nCalled++
+			var val absint.Term
+			for m, v := range callVal {
+				if absint.Marked(ret.St, m) {
+					val = v
+				}
+			}
+			// s.T0x1212.P0x9212RetransmitPacketList
+			t1212, t1212T := a.LoadField(ret.St, recv, evt.Params[0].Type(), "BaseJT808DataHandler")
+			_ = t1212
+			_ = t1212T
+			list := findField(a, ret.St, recv, evt.Params[0].Type(), []string{"BaseJT808DataHandler", "T0x1212", "*", "P0x9212RetransmitPacketList"})
+			okStore := list != nil && val != nil && list.TKey() == val.TKey()
+			lr.set("E3.wiring", name+" / computed ranges are stored into the handler", okStore,
+				"a path computes the missing ranges but leaves the handler's list as it was (a stale list from an earlier completion is reported); path "+strings.Join(ret.St.Trace, " → "))
+			// stage: Supplementary (4) iff len(list) > 0
+			stage := findField(a, ret.St, progArg, evt.Params[1].Type(), []string{"ProgressStage"})
+			if ls, ok := val.(*absint.Slice); ok {
+				if sv, ok := stage.(absint.Int); ok {
+					nonEmpty := ret.St.Entails(absint.Con{L: ls.Len.AddC(-1), Rel: absint.GE})
+					empty := ret.St.Entails(absint.Con{L: ls.Len, Rel: absint.EQ})
+					isSupp := sv.L.IsConst() && sv.L.C == 4
+					okStage := (nonEmpty && isSupp) || (empty && !isSupp) || (!nonEmpty && !empty && false)
+					lr.set("E3.wiring", name+" / stage is Supplementary exactly when ranges are missing", okStage,
+						fmt.Sprintf("stage=%s with list length %s; path %s", a.Render(stage), a.Render(absint.Int{L: ls.Len}), strings.Join(ret.St.Trace, " → ")))
+				}
+			}
+		}
+		if nCalled == 0 {
+			lr.set("E3.wiring", name+" / computed ranges are stored into the handler", false, "no return state passed through StatisticalMissSegments (anchor)")
+		}
+	}
+	// the record whose ranges are computed is the one of the file the completion message names
+	{
+		name := shortFn(evt)
+		n, ok, d := 0, true, ""
+		for _, b := range evt.Blocks {
+			for _, ins := range b.Instrs {
+				call, isC := ins.(*ssa.Call)
+				if !isC || call.Call.StaticCallee() != sweep || len(call.Call.Args) == 0 {
+					continue
+				}
+				n++
+				// receiver → map lookup → key
+				var look *ssa.Lookup
+				var find func(v ssa.Value, depth int)
+				find = func(v ssa.Value, depth int) {
+					if depth > 6 || look != nil {
+						return
+					}
+					switch x := v.(type) {
+					case *ssa.Extract:
+						if lk, isLk := x.Tuple.(*ssa.Lookup); isLk {
+							look = lk
+						}
+					case *ssa.Lookup:
+						look = x
+					case *ssa.UnOp:
+						if al, isAl := x.X.(*ssa.Alloc); isAl {
+							for _, ref := range *al.Referrers() {
+								if st, isSt := ref.(*ssa.Store); isSt && st.Addr == ssa.Value(al) {
+									find(st.Val, depth+1)
+								}
+							}
+						}
+					case *ssa.Phi:
+						for _, e := range x.Edges {
+							find(e, depth+1)
+						}
+					}
+				}
+				find(call.Call.Args[0], 0)
+				if look == nil {
+					ok, d = false, "the record whose missing ranges are computed is not the result of a lookup in the record table"
+					continue
+				}
+				good := false
+				var from []string
+				for _, o := range c.origins(look.Index, nil, nil) {
+					chain := fieldChain(o.Val)
+					from = append(from, strings.Join(chain, "."))
+					// the name is read through the handler's 0x1212 message (FileName is promoted from the embedded 0x1211 layout)
+					if o.Kind == "field" && len(chain) > 0 && chain[len(chain)-1] == "FileName" && containsStr(chain, "T0x1212") {
+						good = true
+					} else {
+						good = false
+						break
+					}
+				}
+				if !good {
+					ok, d = false, fmt.Sprintf("the missing ranges reported in answer to a 0x1212 are computed for the record keyed by %v, not by the file name the 0x1212 carries", from)
+				}
+			}
+		}
+		lr.set("E3.wiring", name+" / the ranges are computed for the file the completion message names", ok && n > 0, d)
+	}
+}
+
+// fieldChain: the selector path of a field load, outermost first (x.A.B.C → [A B C]), through pointer fields.
+func fieldChain(v ssa.Value) []string {
+	var rev []string
+	for depth := 0; depth < 12 && v != nil; depth++ {
+		switch x := v.(type) {
+		case *ssa.UnOp:
+			v = x.X
+		case *ssa.FieldAddr:
+			st := x.X.Type().Underlying().(*types.Pointer).Elem().Underlying().(*types.Struct)
+			rev = append(rev, st.Field(x.Field).Name())
+			v = x.X
+		case *ssa.Field:
+			st := x.X.Type().Underlying().(*types.Struct)
+			rev = append(rev, st.Field(x.Field).Name())
+			v = x.X
+		default:
+			v = nil
+		}
+	}
+	out := make([]string, len(rev))
+	for i := range rev {
+		out[len(rev)-1-i] = rev[i]
+	}
+	return out
+}
+
+func containsStr(xs []string, s string) bool {
+	for _, x := range xs {
+		if x == s {
+			return true
+		}
+	}
+	return false
 }
